@@ -1757,6 +1757,13 @@ s19_cb(void *arg)
 }
 // the same receives through the synchronous calls (the aio lives on the caller's stack and is gone as soon as
 // the call returns - while the batch that completed it may still be walking its members)
+static __attribute__((noinline)) void
+s19_burn(void)
+{
+	volatile char scratch[4096];
+	memset((void *) scratch, 0x5a, sizeof(scratch));
+	__asm__ volatile("" ::"r"(scratch) : "memory");
+}
 static void *
 s19_blocking(void *a)
 {
@@ -1770,9 +1777,7 @@ s19_blocking(void *a)
 			    (char *) nng_msg_body(m), S19[i].nok);
 		S19[i].nok++;
 		nng_msg_free(m);
-		// use the stack the call has just left
-		volatile char scratch[512];
-		memset((void *) scratch, 0x5a, sizeof(scratch));
+		s19_burn(); // use the stack the call has just left
 	}
 	return NULL;
 }
